@@ -63,3 +63,5 @@ class EventTriggerDecorator(TriggerDecorator, ExpressionDecorator):
         await super().stop()
         if self.remove_listener_callback:
             self.remove_listener_callback()
+            # (stop() can be called again, eg by the roll-back of a start that failed part-way)
+            self.remove_listener_callback = None
